@@ -228,7 +228,7 @@ class World:
             cands.append({})
             chosen = None
             for ci, fs in enumerate(cands):
-                out = self._ref_run(prog, versions, fs)
+                out = self._ref_run(prog, versions, fs, fired[2] if fired else None)
                 if chosen is None:
                     chosen = (fs, out)
                 if self._agrees(res.real, out[0]) and self._tree_agrees(res, out):
@@ -312,9 +312,13 @@ class World:
         elif res.real[0] == 'ok':
             self.last_commit = None
 
-    def _ref_run(self, prog, versions, fail_setup):
+    def _ref_run(self, prog, versions, fail_setup, fired_sid=None):
         it2 = Interp(prog, versions, None)
         it2.fail_setup = fail_setup
+        if fired_sid is not None:
+            # the implementation's interpreter reports any OSError caught at the call in which
+            # the fault fired as 'OSError*'; so must the model run (also when the fault is absorbed)
+            it2.fault_sid = lambda: fired_sid
         run = None
         try:
             run = RefRun(self.ref, versions)
